@@ -474,7 +474,11 @@ class Check(PropertyCheck):
                 "LLBuild.BuildDB.C03_dep_blob_codec", "LLBuild.BuildDB.C03_stored_key_faithful",
                 "LLBuild.BuildDB.C03_affinity_witness", "LLBuild.BuildDB.C03_read_your_writes",
                 "LLBuild.BuildDB.C03_commit_visible", "LLBuild.BuildDB.C03_version_gate",
-                "LLBuild.BuildDB.C03_writes_need_lock", "LLBuild.BuildDB.C03_merged_injective_partial", "LLBuild.BuildDB.C03_merged_wraps"]
+                "LLBuild.BuildDB.C03_writes_need_lock", "LLBuild.BuildDB.C03_merged_injective_partial", "LLBuild.BuildDB.C03_merged_wraps",
+                # follow-up: op sequences over any number of connections (Lemmas/BuildDBLock, BuildDBMap, BuildDBInv, BuildDBSpec)
+                "LLBuild.BuildDB.C03_reachable_inv", "LLBuild.BuildDB.C03_refines_map", "LLBuild.BuildDB.C03_frame",
+                "LLBuild.BuildDB.C03_read_your_writes_seq", "LLBuild.BuildDB.C03_lock_step", "LLBuild.BuildDB.C03_single_writer",
+                "LLBuild.BuildDB.C03_other_writers_refused"]
     extractors = ["x_sqlitedb"]
     harnesses = [("vc03", "plain")]
     assumptions = [
